@@ -9,6 +9,7 @@ import (
 	"fmt"
 	"os"
 	"path/filepath"
+	"regexp"
 	"sort"
 	"strings"
 	"time"
@@ -42,6 +43,8 @@ type oblRecord struct {
 	Pos     string  `json:"pos,omitempty"`
 	Src     string  `json:"src,omitempty"`
 }
+
+var propTag = regexp.MustCompile(`\[((?:C\d+,?)+):`)
 
 func hasProp(props []string, id string) bool {
 	for _, p := range props {
@@ -93,7 +96,13 @@ func cmdCheck(args []string) {
 		}
 		fr, _ := P.genVC(con)
 		frs = append(frs, fr)
-		obls = append(obls, fr.Obls...)
+		for _, o := range fr.Obls {
+			// a clause label of the form [C07:...] (or [C07,C04:...]) restricts the obligation to those properties
+			if m := propTag.FindStringSubmatch(o.Label); m != nil && !hasProp(strings.Split(m[1], ","), prop) {
+				continue
+			}
+			obls = append(obls, o)
+		}
 	}
 	// 2. lemmas
 	lemmas := P.lemmaObligations(prop)
@@ -156,6 +165,13 @@ func cmdCheck(args []string) {
 			rec.Verdict = "PROVED"
 			discharged++
 			newBase = append(newBase, full)
+		case matchKnown(known, prop, full) != nil:
+			kf := matchKnown(known, prop, full)
+			rec.Verdict = "KNOWN-FINDING"
+			if !knownHit[kf.Label] {
+				lines = append(lines, fmt.Sprintf("KNOWN-FINDING: property=%s %s [%s]", prop, kf.What, full))
+				knownHit[kf.Label] = true
+			}
 		case len(undecidedFns[o.Fn]) > 0:
 			rec.Verdict = "UNDECIDED"
 			undecided = append(undecided, fmt.Sprintf("UNDECIDED property=%s obligation=%s reason=%s", prop, full, undecidedFns[o.Fn][0]))
@@ -395,7 +411,8 @@ func loadKnown(verif string) []KnownFinding {
 func matchKnown(known []KnownFinding, prop, label string) *KnownFinding {
 	for i := range known {
 		k := &known[i]
-		if k.Status == "finding" && k.Property == prop && k.Label == label {
+		if k.Status == "finding" && k.Label == label { // the same obligation may serve several properties
+			_ = prop
 			return k
 		}
 	}
